@@ -105,6 +105,10 @@ type S struct {
 	Deadlock *ErrDeadlock
 	BlockedN uint64 // number of times a task blocked inside the library
 
+	// Seen, when non-nil, records which yield sites were reached (reach
+	// measure for the evidence).
+	Seen []bool
+
 	Switches  []Switch
 	InOpSw    uint64 // switches taken at a yield (not at task exit)
 	OnStep    func(site uint32)
@@ -302,6 +306,9 @@ func (s *S) Hook(site uint32) {
 		}
 	}
 	s.Step++
+	if int(site) < len(s.Seen) {
+		s.Seen[site] = true
+	}
 	s.PerTask[s.cur]++
 	s.Hash = (s.Hash ^ (uint64(site) | uint64(s.cur)<<32)) * 0x100000001b3
 	if s.Step > s.MaxStep {
